@@ -1,15 +1,15 @@
 CONSTANTS
-  PalUse = {1, 3, 6, 13, 31, 11}
-  MaxNodes = 3
+  PalUse = {1, 3, 9, 13, 31}
+  MaxNodes = 4
   MaxDocs = 1
   ScalarStyles = {"plain", "single", "double", "lit", "fold"}
   CollStyles = {"block", "flow"}
-  MaxDecor = 0
+  MaxDecor = 1
   Indents = {2}
-  Breaks = {"LF"}
-  DocFlags = {}
+  Breaks = {"LF", "CR"}
+  DocFlags = {"ds", "cmp"}
+  Avoid = {}
   Sim = FALSE
 SPECIFICATION Spec
-INVARIANT Emit
-
+INVARIANT Inv
 CHECK_DEADLOCK FALSE
